@@ -193,17 +193,21 @@ Fixpoint match_frames (its : list item) (rest : list int) (pos : N) : bool :=
       end
   end.
 
+Fixpoint last_send (ops : list sop) (d : N) : N :=
+  match ops with
+  | [] => d
+  | (SW _ (Ob s _) | SF (Ob s _) | SP (Ob s _) | SD (Ob s _)) :: r => last_send r (N_of s)
+  end.
+
 Definition spec_session (s : session) : bool :=
   match s with
   | Sess p0 epi ops received =>
       let '(acc, cur) := items_of ops [] [IFrame (unpack p0)] in
       let total := N.of_nat (length (unpack received)) in
-      (* dispose: a drop when everything the script left has been polled out or not, then the
-         closing sequence; the send counter at that drop is not observable, the least favourable
-         value (nothing more was delivered than at the last observation) is not needed: the
-         harness drains the queue before it releases the terminal object, so the drop in
-         dispose finds a single chunk *)
-      let its := rev (IFrame (unpack epi) :: close_frame cur acc) in
+      (* dispose: frames_drop with the send counter as last observed (no poll happens in between),
+         then the closing sequence as one more frame *)
+      let drop_at := last_send ops (N.of_nat (length (unpack p0))) in
+      let its := rev (IFrame (unpack epi) :: IDrop drop_at :: close_frame cur acc) in
       match_frames its (unpack received) 0 && (0 <? total)%N
   end.
 
